@@ -106,11 +106,17 @@ impl Assignment {
         let name = self.idents[0].name();
 
         if self.flags().contains(AssignmentFlag::modify()) {
-            let (ident, _) = user_data
+            let (ident, is_captured) = user_data
                 .get_dependency_flags_from_name_skip_n(name, skip)
                 .context(
                     "attempting to look up a variable that does not exist in any parent scope",
                 )?;
+
+            // `modify` writes a variable captured from an enclosing function: that is what the name must denote
+            // here, not a variable of this function (whichever of its blocks declared it)
+            if !is_captured {
+                bail!("`{name}` is a variable of this function, not one captured from an enclosing function")
+            }
 
             return Ok(!ident.is_const());
         }
